@@ -218,7 +218,11 @@ fn add_udp(a: &mut UdpStats, b: &UdpStats) {
 // ---------------------------------------------------------------------------------------
 
 struct Bounds {
+    /// stream lengths used for every (entry, connections, chunking, close order)
     tcp_lens: Vec<usize>,
+    /// additional stream length used only where connections == 1 and chunking == one-write
+    /// (all entry points x all close orders); None: no such restriction-bound length
+    tcp_len_window: Option<usize>,
     concs: Vec<usize>,
     udp_lens: Vec<usize>,
     deadline_s: u64,
@@ -229,9 +233,10 @@ fn bounds(args: &Args) -> Bounds {
     // the default receive window is 512 frames and the bridges read at most 8 KiB per frame, so
     // 512 * 8 KiB = 4 MiB is the least stream length that certainly needs a window update
     if args.thorough() {
-        Bounds { tcp_lens: vec![0, 1, 4099, 3 * 512 * 8192 + 5], concs: vec![1, 3, 5], udp_lens: vec![0, 1, 2, 3, 4, 5, 1400, 1472, 9000, 65000], deadline_s: 40, parallel: args.threads.clamp(1, 8) }
+        Bounds { tcp_lens: vec![0, 1, 4099, 3 * 512 * 8192 + 5], tcp_len_window: None, concs: vec![1, 3, 5], udp_lens: vec![0, 1, 2, 3, 4, 5, 1400, 1472, 9000, 65000], deadline_s: 40, parallel: args.threads.clamp(1, 8) }
     } else {
-        Bounds { tcp_lens: vec![0, 1, 512 * 8192 + 4099], concs: vec![1, 3], udp_lens: vec![0, 1, 3, 4, 1400], deadline_s: 30, parallel: args.threads.clamp(1, 8) }
+        // 70001 B: nine 8 KiB frames, everywhere; 4198403 B (one window + 4099 B: needs a window update): sub-matrix
+        Bounds { tcp_lens: vec![0, 1, 70001], tcp_len_window: Some(512 * 8192 + 4099), concs: vec![1, 3], udp_lens: vec![0, 1, 3, 4, 1400], deadline_s: 30, parallel: args.threads.clamp(1, 8) }
     }
 }
 
@@ -240,14 +245,20 @@ fn matrix(b: &Bounds) -> Vec<Case> {
     for entry in Entry::ALL {
         for &conc in &b.concs {
             for chunk in Chunk::ALL {
+                let mut lens = b.tcp_lens.clone();
+                if let Some(w) = b.tcp_len_window {
+                    if conc == 1 && chunk == Chunk::One {
+                        lens.push(w);
+                    }
+                }
                 for order in Order::ALL {
-                    for &c2t in &b.tcp_lens {
+                    for &c2t in &lens {
                         if order == Order::Refuse {
                             // no target: the target->client payload does not exist
                             v.push(Case::Tcp(TcpCase { entry, c2t, t2c: 0, chunk, order, conc }));
                             continue;
                         }
-                        for &t2c in &b.tcp_lens {
+                        for &t2c in &lens {
                             v.push(Case::Tcp(TcpCase { entry, c2t, t2c, chunk, order, conc }));
                         }
                     }
@@ -356,7 +367,7 @@ pub fn run(args: &Args) -> Report {
     let b = bounds(args);
     // ---- the oracle's own parts
     let concs_max = *b.concs.iter().max().unwrap_or(&1);
-    if let Err(e) = proto::self_test().and_then(|()| tcp::self_test_payloads(&b.tcp_lens, concs_max.max(3))).and_then(|()| udp::self_test()).and_then(|()| control_self_test()) {
+    if let Err(e) = proto::self_test().and_then(|()| tcp::self_test_payloads(&b.tcp_lens.iter().copied().chain(b.tcp_len_window).collect::<Vec<_>>(), concs_max.max(3))).and_then(|()| udp::self_test()).and_then(|()| control_self_test()) {
         rep.machinery_error = Some(format!("self-test: {e}"));
         return rep;
     }
@@ -530,9 +541,14 @@ pub fn run(args: &Args) -> Report {
     if n_done < n_distinct {
         rep.caps_hit.push(format!("wall budget of {} s reached after deadline failures were confirmed: {} of {} matrix points were not run", budget.as_secs(), n_distinct - n_done, n_distinct));
     }
-    rep.rule = "complete product: TCP = entry point (7) x connections x chunking (3) x [close order (4) x client->target length x target->client length + target-refuses x client->target length]; UDP = entry (UDP remote, SOCKS5 UDP with IPv4 header, with domain header) x topology (1 client, 3 clients, 1 socket to 2 entry points; SOCKS5 only: 1 association alternating between 2 targets with the same host string and different ports, and between 2 targets with different host strings 127.0.0.1/127.0.0.2 and the same port) x payload length, 3 request/reply exchanges per leg; one execution per point (more only after a lost port race or a deadline hit); a case is distinct when its parameter tuple is distinct".into();
+    let len_rule = match b.tcp_len_window {
+        None => format!("L = {:?} for every combination", b.tcp_lens),
+        Some(w) => format!("L = {:?} for every combination, and L = {:?} (adds the window-exceeding length {w}) for the sub-matrix connections = 1 AND chunking = one-write (all 7 entry points, all 5 close orders)", b.tcp_lens, b.tcp_lens.iter().copied().chain([w]).collect::<Vec<_>>()),
+    };
+    rep.rule = format!("complete product, every point enumerated (no sampling): TCP = entry point (7) x connections {:?} x chunking (3) x [close order (4) x client->target length in L x target->client length in L + target-refuses x client->target length in L], where {len_rule}; UDP = entry (UDP remote, SOCKS5 UDP with IPv4 header, with domain header) x topology (1 client, 3 clients, 1 socket to 2 entry points; SOCKS5 only: 1 association alternating between 2 targets with the same host string and different ports, and between 2 targets with different host strings 127.0.0.1/127.0.0.2 and the same port) x payload length, 3 request/reply exchanges per leg; one execution per point (more only after a lost port race or a deadline hit); a case is distinct when its parameter tuple is distinct", b.concs);
     rep.bounds.insert("tcp_entry_points".into(), json!(Entry::ALL.iter().map(|e| e.name()).collect::<Vec<_>>()));
     rep.bounds.insert("tcp_payload_lengths".into(), json!(b.tcp_lens));
+    rep.bounds.insert("tcp_payload_length_only_for_1_connection_one_write".into(), json!(b.tcp_len_window));
     rep.bounds.insert("tcp_connections".into(), json!(b.concs));
     rep.bounds.insert("tcp_chunkings".into(), json!(Chunk::ALL.iter().map(|e| e.name()).collect::<Vec<_>>()));
     rep.bounds.insert("tcp_close_orders".into(), json!(Order::ALL.iter().map(|e| e.name()).collect::<Vec<_>>()));
@@ -602,7 +618,7 @@ pub fn run(args: &Args) -> Report {
     }
     rep.assumptions.push("interleavings are whatever the multi-thread tokio runtime and the kernel produce: ONE uncontrolled schedule per matrix point (level: exploration); the schedule-sensitive part of the same paths is decided by C02/C05/C13 with owned schedules".into());
     rep.assumptions.push("a violation that needs a particular interleaving (e.g. back-pressure from the other scenarios running in parallel) may not show again when its replay file is run alone; the replay then reports no violation".into());
-    rep.assumptions.push("quick tier: the long payload is one receive window of 8 KiB frames plus 4099 bytes (the sender needs at least one window update); thorough tier: three windows, a 4099-byte payload, 5 simultaneous connections and more datagram lengths".into());
+    rep.assumptions.push("quick tier: 70001-byte streams (nine 8 KiB frames) everywhere; the stream of one receive window of 8 KiB frames plus 4099 bytes (the sender needs at least one window update) only with 1 connection and one-write chunking (every entry point, every close order); thorough tier: three windows and 4099 bytes in every combination, 5 simultaneous connections and more datagram lengths".into());
     rep.assumptions.push("how a read ends after BOTH directions are finished (EOF or reset) is recorded, not judged; a half-close must arrive as a true EOF and the data sent after it must arrive completely".into());
     rep.assumptions.push("target refuses: a SOCKS/HTTP success answer followed by a close, a refusal answer, or a close before the answer all count as 'closed rather than left hanging'".into());
     rep.assumptions.push("the address inside the SOCKS5 UDP reply header is recorded (extra.socks5_udp_header_addr_*), not judged: the statement only demands a well-formed header that can be stripped".into());
